@@ -70,11 +70,16 @@ CHECK = {'rule': 'four rapid-generated case kinds plus one exhaustive part. maps
                         {'test': '^TestPropMaps$', 'checks': 200000, 'shards': 1, 'timeout': 900},
                         {'test': '^TestPropRead$', 'checks': 300000, 'shards': 5, 'timeout': 900},
                         {'test': '^TestPropWrite$', 'checks': 300000, 'shards': 4, 'timeout': 900},
-                        {'test': '^TestPropLoad$', 'checks': 25000, 'shards': 5, 'timeout': 900}]}}
+                        {'test': '^TestPropLoad$', 'checks': 25000, 'shards': 5, 'timeout': 900},
+                        {'test': '^$', 'fuzz': '^FuzzReadDoc$', 'fuzztime': '120s', 'gomaxprocs': 4, 'timeout': 400},
+                        {'test': '^$', 'fuzz': '^FuzzWriteMap$', 'fuzztime': '90s', 'gomaxprocs': 4, 'timeout': 400},
+                        {'test': '^$', 'fuzz': '^FuzzMaps$', 'fuzztime': '90s', 'gomaxprocs': 4, 'timeout': 400}]}}
 
 TEXT = {'technique': 'property-based testing (rapid): round-trip and differential oracles against encoding/json over generated nested maps, JSON documents '
               'rendered with per-character escape choice, flat maps over all valid Unicode, and generated translation directories loaded under '
-              'varied GOMAXPROCS / workers.MaxJob / CPU confinement; small exhaustive enumeration of escape-relevant strings',
+              'varied GOMAXPROCS / workers.MaxJob / CPU confinement; small exhaustive enumeration of escape-relevant strings; thorough adds native '
+              'coverage-guided go fuzzing of raw JSON documents (domain filter + same differential oracle), of flat maps and of the nested-map generator '
+              '(rapid.MakeFuzz)',
  'level_text': 'Exploration: ~93 k cases per quick run (~76 k distinct non-trivial) + 2 955 strings exhaustively (length <= 3 over 14 character '
                'classes); thorough ~3.2 M cases + length <= 4. Loader schedules are sampled, not directed (single-consumer and one-CPU classes '
                'over-weighted); the directed version of the fsloop window lives in C08.',
